@@ -262,7 +262,12 @@ def step (st : St) (args : List String) : St × String :=
       else if op = "export" then
         match exportKeystore x.ks a (privPass a) with
         | .error e => (st, errTok e)
-        | .ok j => ({ st with jsons := AMap.put st.jsons b (j, a) }, s!"ok ex={j.ex} in={j.inn} acct={j.account}")
+        | .ok j =>
+          -- spec: the file carries the number of receiving / change addresses the wallet holds, account 1
+          let held := ((AMap.get x.ks.mgrs a).map namesOf).getD []
+          let cnt (br : String) := (held.filter (fun n => (n.splitOn ".")[1]? = some br)).length
+          ({ st with jsons := AMap.put st.jsons b (j, a) },
+            s!"ok ex={j.ex} in={j.inn} acct={j.account}" ++ "\t" ++ s!"ok ex={cnt "0"} in={cnt "1"} acct=1")
       else if op = "sign" then
         if !(((AMap.get x.ks.mgrs a).map (fun m => (AMap.get m.addrs b).isSome)).getD false) then (st, "err\terr") else
         match signWith toy x.ks b (privPass a) with
